@@ -29,9 +29,10 @@ const (
 	evCallback
 	evMap
 	evDone
+	evSync
 )
 
-var evNames = map[uint32]string{evStart: "start", evOpStart: "op", evRead: "read", evWrite: "write", evCallback: "cb", evMap: "map", evDone: "done"}
+var evNames = map[uint32]string{evStart: "start", evOpStart: "op", evRead: "read", evWrite: "write", evCallback: "cb", evMap: "map", evDone: "done", evSync: "sync"}
 
 type msg [16]byte
 
